@@ -244,6 +244,28 @@ def run(tier):
     # every `None` it builds itself sits on the guard's false edge (a length limit, a fast exit for "long text" etc. would turn
     # numbers of the core schema into strings)
     n_none = rejects_only_by_guard(rep, F, pf64, "rejects-only-by-guard")
+    # (c'') what the integer guard accepts: is_unsigned_digits(s, radix) folded over short strings (and long runs of digits) must be
+    # "non-empty and every character is a digit of the radix" - a guard that refuses long or zero-padded spellings turns integers of
+    # the core schema into strings
+    import itertools
+    from engine import fold as _fold
+    gk = "saphyr::scalar::is_unsigned_digits"
+    if gk in F.fns:
+        wrong, ncase = [], 0
+        try:
+            for radix, digs in ((8, "01234567"), (10, "0123456789"), (16, "0123456789abcdefABCDEF")):
+                cases = ["".join(t) for n_ in range(0, 4) for t in itertools.product("07a9fg+-", repeat=n_)]
+                cases += [d * n_ for d in "07" for n_ in (15, 16, 17, 19, 20, 21, 22, 23, 40)]
+                for sx in cases:
+                    ncase += 1
+                    got = bool(_fold.Folder(F).call(gk, [("ref", ("str", sx)), radix]))
+                    want = sx != "" and all(c in digs for c in sx)
+                    if got != want:
+                        wrong.append("%r (radix %d): guard says %s" % (sx if len(sx) < 12 else sx[:3] + "...x%d" % len(sx), radix, got))
+            rep.check(not wrong, "guard-language", "is_unsigned_digits", "the lexical guard of the prefixed integers does not accept exactly the non-empty runs of digits of the "
+                      "radix: %s" % "; ".join(wrong[:4]), site=F.fns[gk].span, detail={"cases": ncase, "wrong": len(wrong)})
+        except (_fold.Unsupported, _fold.Diverged) as ex:
+            rep.extra["guard_language_not_decided"] = str(ex)
     rep.floor("None results built by the float resolver", n_none, 1)
     # (e) no parsed number is converted with a lossy `as`
     from engine import callgraph
